@@ -261,7 +261,7 @@ PROPS = {
     "C07": dict(pool_prop(["disabled_never_refreshes", "response_resets", "isResponse_iff", "stale_call_ignored", "refresh_trigger", "window_exponential", "window_monotone_or_saturated", "refresh_once"], ["window_exponential: k < 63 and unresponsive_detection_ms * 2^k <= MaxInt64 ms; beyond that the window saturates at MaxInt64 ns (window_monotone_or_saturated; K2 was the uint32 wrap, fixed in 6463af4)"]), theorems=pool_thms(["disabled_never_refreshes", "response_resets", "isResponse_iff", "stale_call_ignored", "refresh_trigger", "window_exponential", "window_monotone_or_saturated", "refresh_once"]) +
                 [("GcpVerif.Proofs.PoolRefresh", "GcpVerif.Pool." + n) for n in ["one_replacement_per_slot", "refr_run", "refresh_in_progress_noop", "swap_takes_over", "replacement_idle_reconnects", "replacement_not_ready_ignored"]] +
                 [("GcpVerif.Proofs.PoolKeys", "GcpVerif.Pool.stable_swap")] +
-                [("GcpVerif.Proofs.PoolStale", "GcpVerif.Pool." + n) for n in ["decision_still_due", "det_step", "fwd_step"]] +
+                [("GcpVerif.Proofs.PoolStale", "GcpVerif.Pool." + n) for n in ["decision_still_due", "det_step", "fwd_step", "woken_call_starts_now", "place_started"]] +
                 [("GcpVerif.Proofs.Tas", "GcpVerif.Tas." + n) for n in ["one_winner", "split_two_winners", "refresh_test_and_set_atomic"]] +
                 [("GcpVerif.Proofs.Ties", "GcpVerif.Ties.balancer_callbacks_hold_lock"), ("GcpVerif.Proofs.Ties", "GcpVerif.Ties.detector_decision_revalidated"), ("GcpVerif.Proofs.Ties", "GcpVerif.Ties.detector_counts_atomically")] +
                 [("GcpVerif.Proofs.PoolDetector", "GcpVerif.Pool." + n) for n in ["detector_quiet", "detector_done", "detector_done_unknown", "detector_scs", "refresh_det"]] +
